@@ -29,6 +29,8 @@ type CheckDef struct {
 	// Custom, when set, replaces the E1 runs (E3 / E2 checks).
 	Custom func(tier string, seed int64) *CustomResult
 	Assumptions []string
+	// Replay, when set, re-executes one stored counterexample of a Custom check directly (returns 1 when reproduced).
+	Replay func(fp string, raw interface{}) int
 }
 
 // CustomResult is what a non-E1 check reports.
@@ -53,6 +55,9 @@ func ReplayCustom(prop, fp, tier string, raw interface{}) int {
 	if def == nil || def.Custom == nil {
 		fmt.Println("no custom check for", prop)
 		return 2
+	}
+	if def.Replay != nil {
+		return def.Replay(fp, raw)
 	}
 	want, _ := json.Marshal(raw)
 	cr := def.Custom(tier, 0)
